@@ -164,14 +164,21 @@ func (p Precompile) RegisterToken(
 		StakingTotalAmount: sdkmath.NewInt(0),
 	}
 
-	if err := p.assetsKeeper.RegisterNewTokenAndSetTokenFeeder(ctx, &oInfo); err != nil {
+	// register the staking asset first and the oracle token last, in a cached context: the
+	// oracle registration also updates the oracle's in-memory params, which cannot be rolled
+	// back, so nothing that may fail is allowed to follow it. a reported failure (`false`)
+	// then leaves neither the stores nor the oracle's memory changed.
+	cc, writeFunc := ctx.CacheContext()
+
+	// this is where the magic happens
+	if err := p.assetsKeeper.SetStakingAssetInfo(cc, stakingAsset); err != nil {
 		return nil, err
 	}
 
-	// this is where the magic happens
-	if err := p.assetsKeeper.SetStakingAssetInfo(ctx, stakingAsset); err != nil {
+	if err := p.assetsKeeper.RegisterNewTokenAndSetTokenFeeder(cc, &oInfo); err != nil {
 		return nil, err
 	}
+	writeFunc()
 
 	return method.Outputs.Pack(true)
 }
